@@ -7,7 +7,7 @@ from .c05 import same_value
 
 ID = "C06"
 LEVEL = "proof"
-PROPS_MODULE = "SymmModel.Props.C06All8"
+PROPS_MODULE = "SymmModel.Props.C06All9"
 THEOREMS = [
     "SymmModel.C06.dropMisaligned_blocks_fst",
     "SymmModel.C06.dropMisaligned_blocks_snd",
@@ -103,10 +103,18 @@ THEOREMS = [
     "SymmModel.C06.shiftAxes_strictMono",
     "SymmModel.C06.shiftAxes_sides",
     "SymmModel.C06.tensordot_fuse_group_commute_layout",
-    "SymmModel.C06.tensordot_fuse_group_commute_right_layout"
+    "SymmModel.C06.tensordot_fuse_group_commute_right_layout",
+    "SymmModel.C06.fuseF_leading_fields",
+    "SymmModel.C06.fuseF_leading_admissible",
+    "SymmModel.C06.fuseF_leading_admissible_right",
+    "SymmModel.C06.tensordot_fuse_free_commute_fermionic_right",
+    "SymmModel.C06.tensordot_fuse_free_commute_fermionic_two_sided",
+    "SymmModel.C06.tensordot_fuse_free_commute_fermionic_two_sided_any_mode",
+    "SymmModel.C06.fuseSignT_leading_result",
+    "SymmModel.C06.tensordot_fuse_free_commute_fermionic_two_sided_signs"
 ]
-LEAN_FILES = ["SymmModel.Props.C06", "SymmModel.Proofs.TdotLemmas", "SymmModel.Proofs.Accum", "SymmModel.Proofs.BlkLemmas", "SymmModel.Props.C06b", "SymmModel.Props.C06All", "SymmModel.Proofs.TdotFused1", "SymmModel.Proofs.TdotFused2", "SymmModel.Proofs.TdotFused3", "SymmModel.Proofs.TdotFused4", "SymmModel.Proofs.TdotFused5", "SymmModel.Proofs.TdotFused6", "SymmModel.Proofs.TdotFused7", "SymmModel.Proofs.TdotFused8", "SymmModel.Proofs.TdotFused9", "SymmModel.Props.C06c", "SymmModel.Props.C06All2", "SymmModel.Proofs.TdotFused10", "SymmModel.Proofs.TdotFused11", "SymmModel.Proofs.TdotFused12", "SymmModel.Proofs.TdotFused13", "SymmModel.Proofs.TdotFused14", "SymmModel.Proofs.TdotFused15", "SymmModel.Proofs.TdotFused16", "SymmModel.Proofs.TdotFused17", "SymmModel.Proofs.TdotFused18", "SymmModel.Proofs.TdotFused19", "SymmModel.Proofs.TdotFused20", "SymmModel.Proofs.TdotFused21", "SymmModel.Proofs.TdotFused22", "SymmModel.Proofs.TdotFused23", "SymmModel.Proofs.TdotFusedAll", "SymmModel.Proofs.TdotFusedW1", "SymmModel.Proofs.TdotFusedW2", "SymmModel.Proofs.TdotFusedS1", "SymmModel.Proofs.TdotFusedS2", "SymmModel.Proofs.TdotFusedS3", "SymmModel.Proofs.TdotFusedS4", "SymmModel.Props.C06d", "SymmModel.Props.C06All3", "SymmModel.Proofs.TdotFuseC1", "SymmModel.Proofs.TdotFuseC2", "SymmModel.Proofs.TdotFuseC3", "SymmModel.Proofs.TdotFuseC4", "SymmModel.Proofs.TdotFuseC5", "SymmModel.Proofs.TdotFuseC6", "SymmModel.Proofs.TdotFuseC7", "SymmModel.Proofs.TdotChain1", "SymmModel.Proofs.TdotChain2", "SymmModel.Props.C06e", "SymmModel.Props.C06All4", "SymmModel.Props.C06f", "SymmModel.Proofs.FuseCommute1", "SymmModel.Proofs.FuseCommute2", "SymmModel.Proofs.FuseCommute3", "SymmModel.Proofs.FuseCommute4", "SymmModel.Props.C06g", "SymmModel.Proofs.FuseCommuteF1", "SymmModel.Proofs.FuseCommuteF2", "SymmModel.Proofs.FuseCommuteF3", "SymmModel.Proofs.FuseCommuteF4", "SymmModel.Proofs.FuseCommuteF5", "SymmModel.Proofs.FuseCommuteF6", "SymmModel.Proofs.FuseCommuteF7", "SymmModel.Proofs.FuseCommuteF8", "SymmModel.Proofs.FuseCommuteFM", "SymmModel.Proofs.FuseCommuteG1", "SymmModel.Proofs.FuseCommuteG2", "SymmModel.Proofs.FuseCommuteG3", "SymmModel.Proofs.FuseCommuteG4", "SymmModel.Proofs.FuseCommuteG5", "SymmModel.Props.C06h", "SymmModel.Proofs.FuseCommuteH1", "SymmModel.Proofs.FuseCommuteH2", "SymmModel.Props.C06i", "SymmModel.Proofs.FuseCommuteI1", "SymmModel.Proofs.FuseCommuteI2", "SymmModel.Proofs.FuseCommuteI3", "SymmModel.Proofs.FuseCommuteI4", "SymmModel.Proofs.FuseCommuteI5"]
-PLANNED = ["fermionic two-sided free-leg form", "fuse applied to the result of the FUSED-mode plain contraction (its pruned tables change the decoder) and the layout theorems in fused/auto mode", "literal coincidence of the two results on the fused leg itself is FALSE of the model and of the code (a fused leg's table lists only the sub-sectors stored by the array being fused: proved example lyA/lyB) \u2014 statements are at decoded addresses on that leg and literal on every other leg", "equality of the PRUNED index tables of the routes of the first clause is likewise not claimed"]
+LEAN_FILES = ["SymmModel.Props.C06", "SymmModel.Proofs.TdotLemmas", "SymmModel.Proofs.Accum", "SymmModel.Proofs.BlkLemmas", "SymmModel.Props.C06b", "SymmModel.Props.C06All", "SymmModel.Proofs.TdotFused1", "SymmModel.Proofs.TdotFused2", "SymmModel.Proofs.TdotFused3", "SymmModel.Proofs.TdotFused4", "SymmModel.Proofs.TdotFused5", "SymmModel.Proofs.TdotFused6", "SymmModel.Proofs.TdotFused7", "SymmModel.Proofs.TdotFused8", "SymmModel.Proofs.TdotFused9", "SymmModel.Props.C06c", "SymmModel.Props.C06All2", "SymmModel.Proofs.TdotFused10", "SymmModel.Proofs.TdotFused11", "SymmModel.Proofs.TdotFused12", "SymmModel.Proofs.TdotFused13", "SymmModel.Proofs.TdotFused14", "SymmModel.Proofs.TdotFused15", "SymmModel.Proofs.TdotFused16", "SymmModel.Proofs.TdotFused17", "SymmModel.Proofs.TdotFused18", "SymmModel.Proofs.TdotFused19", "SymmModel.Proofs.TdotFused20", "SymmModel.Proofs.TdotFused21", "SymmModel.Proofs.TdotFused22", "SymmModel.Proofs.TdotFused23", "SymmModel.Proofs.TdotFusedAll", "SymmModel.Proofs.TdotFusedW1", "SymmModel.Proofs.TdotFusedW2", "SymmModel.Proofs.TdotFusedS1", "SymmModel.Proofs.TdotFusedS2", "SymmModel.Proofs.TdotFusedS3", "SymmModel.Proofs.TdotFusedS4", "SymmModel.Props.C06d", "SymmModel.Props.C06All3", "SymmModel.Proofs.TdotFuseC1", "SymmModel.Proofs.TdotFuseC2", "SymmModel.Proofs.TdotFuseC3", "SymmModel.Proofs.TdotFuseC4", "SymmModel.Proofs.TdotFuseC5", "SymmModel.Proofs.TdotFuseC6", "SymmModel.Proofs.TdotFuseC7", "SymmModel.Proofs.TdotChain1", "SymmModel.Proofs.TdotChain2", "SymmModel.Props.C06e", "SymmModel.Props.C06All4", "SymmModel.Props.C06f", "SymmModel.Proofs.FuseCommute1", "SymmModel.Proofs.FuseCommute2", "SymmModel.Proofs.FuseCommute3", "SymmModel.Proofs.FuseCommute4", "SymmModel.Props.C06g", "SymmModel.Proofs.FuseCommuteF1", "SymmModel.Proofs.FuseCommuteF2", "SymmModel.Proofs.FuseCommuteF3", "SymmModel.Proofs.FuseCommuteF4", "SymmModel.Proofs.FuseCommuteF5", "SymmModel.Proofs.FuseCommuteF6", "SymmModel.Proofs.FuseCommuteF7", "SymmModel.Proofs.FuseCommuteF8", "SymmModel.Proofs.FuseCommuteFM", "SymmModel.Proofs.FuseCommuteG1", "SymmModel.Proofs.FuseCommuteG2", "SymmModel.Proofs.FuseCommuteG3", "SymmModel.Proofs.FuseCommuteG4", "SymmModel.Proofs.FuseCommuteG5", "SymmModel.Props.C06h", "SymmModel.Proofs.FuseCommuteH1", "SymmModel.Proofs.FuseCommuteH2", "SymmModel.Props.C06i", "SymmModel.Proofs.FuseCommuteI1", "SymmModel.Proofs.FuseCommuteI2", "SymmModel.Proofs.FuseCommuteI3", "SymmModel.Proofs.FuseCommuteI4", "SymmModel.Proofs.FuseCommuteI5", "SymmModel.Props.C06j", "SymmModel.Proofs.FuseCommuteJ1", "SymmModel.Proofs.FuseCommuteJ2", "SymmModel.Proofs.FuseCommuteJ3", "SymmModel.Proofs.FuseCommuteJ4"]
+PLANNED = ["the fermionic two-sided form with the post-fused side as ONE fuse call on the plain result (proved through the exchanged result and the S5 relation, and in closed form down to the plain contraction: tensordot_fuse_free_commute_fermionic_two_sided[_any_mode])", "fermionic free-leg groups at arbitrary positions without the preliminary transposition", "fuse applied to the result of the FUSED-mode plain contraction and the layout theorems in fused/auto mode", "literal coincidence of the two results on the fused leg itself is FALSE of the model and of the code (proved example lyA/lyB): statements are at decoded addresses on that leg and literal on every other leg"]
 RULE = ("random contractible pairs (abelian and fermionic, even/odd parity, all symmetries, sparse operands whose "
         "present sectors differ, operands with a pre-fused free leg); modes fused/blockwise/auto compared with each "
         "other, with the Lean model, and with the explicit route align -> fuse contracted legs on both operands -> "
